@@ -18,7 +18,7 @@ RULE = ('host models = (errno table, signal enum, address-family enum, socket-ki
         'them; plus one RELOAD of the decoder modules on an "alien platform" (every integer constant of errno / socket / '
         'signal renumbered or removed), on the BSD-numbered host, on the Darwin model and on a close relative, so that tables built from the host at import time are seen too. Cases: every BSD decoder x EVERY error code 1..140 x 2 (quick) / 4 (thorough) START shapes under the real host and the Darwin model (errno table and E* constants swapped); every BSD decoder x sampled codes under all five models, sigaction 1..31, '
         'socket/socketpair/socket_delegate x Darwin families x kinds 1..5 and x 16 types Darwin does not define (Darwin types or-ed with Linux / BSD creation flags: same outcome on every host, never a SOCK_* name), get/setsockopt with levels 0xffff/1/6/0. '
-        'Oracle: (1) the rendered text is identical under every host model; (2) the names are Darwin\'s: errno and '
+        'data_model: END words above 2^32 render the same on a host whose C long has 32 bits (ctypes.c_long / c_ulong rebound). Oracle: (1) the rendered text is identical under every host model; (2) the names are Darwin\'s: errno and '
         'signal tables of xnu, required family names, SOCK_*, SOL_SOCKET + SO_* for level 0xffff; codes Darwin does '
         'not define are shown numerically. Non-trivial: the code\'s name differs between at least two host models; '
         'distinct by (decoder, code).')
@@ -233,6 +233,39 @@ def prop_socket_undefined(ctx, case):
     ctx.note([name, af, kind], nontrivial=True, classes=['socket-undefined-type', kind_])
 
 
+@contextlib.contextmanager
+def llp64():
+    """a host whose C `long` has 32 bits (Windows): ctypes.c_long / c_ulong are the 32-bit types there"""
+    import ctypes
+    saved = []
+    mods = [ctypes] + [m for n, m in list(sys.modules.items()) if m is not None and n.startswith('pykdebugparser')]
+    try:
+        for m in mods:
+            # by NAME: on this host c_int64 is the same object as c_long, there it is c_longlong
+            for attr, new in (('c_long', ctypes.c_int32), ('c_ulong', ctypes.c_uint32)):
+                if isinstance(vars(m).get(attr), type):
+                    saved.append((m, attr, vars(m)[attr]))
+                    setattr(m, attr, new)
+        yield
+    finally:
+        for m, attr, obj in reversed(saved):
+            setattr(m, attr, obj)
+
+
+def prop_data_model(ctx, case):
+    """error and result words are 64-bit words of the dump: their rendering does not depend on how wide the host's C long is"""
+    name, seed, word = case['name'], case['seed'], case['word']
+    d = domains.project(name, 1, S.expand_words(seed + 4096, 0))
+    a = [int.from_bytes(d[8 * i:8 * i + 8], 'little') for i in range(4)]
+    e = [word if case['slot'] == 0 else 0, word if case['slot'] == 1 else 77, 78, 79]
+    here = guard(render, name, a, e)
+    with llp64():
+        there = guard(render, name, a, e)
+    if here != there:
+        raise Violation(f'host-dependent:data-model:{name}', f'{name} END={e}: {here!r} on this host, {there!r} on a host whose C long has 32 bits')
+    ctx.note([name, case['slot'], word], nontrivial=word >= 1 << 32, classes=['data-model'])
+
+
 def prop_sockopt(ctx, case):
     name, level, opt, seed = case['name'], case['level'], case['opt'], case['seed']
     txt = check_same(name, guard(render_under, name, [3, level, opt, 0x40], [0, 0, 0, 0], seed), 'sockopt')
@@ -338,7 +371,7 @@ def prop_reload(ctx, case):
         ctx.note(['reload', label, len(cases)], nontrivial=True, classes=['reload:' + label.split()[-2] + '-' + label.split()[-1]])
 
 
-PROPS = {'socket_undefined': prop_socket_undefined, 'reload': prop_reload, 'errno_sweep': prop_errno_sweep, 'errno': prop_errno, 'signal': prop_signal, 'socket': prop_socket, 'sockopt': prop_sockopt}
+PROPS = {'data_model': prop_data_model, 'socket_undefined': prop_socket_undefined, 'reload': prop_reload, 'errno_sweep': prop_errno_sweep, 'errno': prop_errno, 'signal': prop_signal, 'socket': prop_socket, 'sockopt': prop_sockopt}
 
 
 def run(ctx):
@@ -362,6 +395,9 @@ def run(ctx):
     so = [{'name': n, 'af': af, 'kind': k, 'seed': base + af * 7 + k}
           for n in ('BSC_socket', 'BSC_socketpair', 'BSC_socket_delegate') for af in sorted(D.AF) for k in range(1, 6)]
     ctx.run_enum('socket', so, prop_socket, exhaustive_label='Darwin address families x socket kinds')
+    words = [2 ** 32 + 2, 2 ** 64 - 2, 2 ** 63, 2 ** 32 + 13, 2 ** 31, 13, 2 ** 40 + 35]
+    dm = [{'name': n, 'seed': base + i, 'slot': (i + j) % 2, 'word': w_} for i, n in enumerate(bsd[::max(1, len(bsd) // ctx.n(25, 200))]) for j, w_ in enumerate(words)]
+    ctx.run_enum('data_model', dm, prop_data_model, exhaustive_label='BSD decoders (sampled) x END words above 2^32 on a host whose C long has 32 bits')
     odd = [0x801, 0x802, 0x80001, 0x80002, 0x80801, 0x800, 0x80000, 0x20000001, 0x10000002, 0x30000001, 0x4001, 0x8001, 6, 7, 0, 0x100000001]
     su = [{'name': n, 'af': 2 + (i % 2) * 28, 'kind': k, 'seed': base + i} for n in ('BSC_socket', 'BSC_socketpair', 'BSC_socket_delegate') for i, k in enumerate(odd)]
     ctx.run_enum('socket_undefined', su, prop_socket_undefined, exhaustive_label='socket types Darwin does not define (Darwin types | other platforms\' creation flags)')
